@@ -21,7 +21,7 @@ import (
 func init() {
 	core.Register(&core.Simple{
 		Id: "C11", Lvl: "exploration", Quick: 220, Thorough: 6000, PerBatch: 55, Width: 55, Timeout: 2400,
-		RuleText: "each case is a history of 20-40 file-management requests through the real connection loop on a generated tree (names over ASCII and Mac-Roman high bytes incl. names that merely contain '.incomplete', spaces, 1..60 bytes; not starting with '.' or '@'): rename, move, delete, new folder (also onto an existing name), alias, set-comment on files and folders (an eighth of the comments 4-9 KB long), upload started and cut (partial file), and move/rename attempts on a partial by its listed name; destination names never collide. In a quarter of the cases operator-configured ignore patterns are in force and matching files lie in every folder (never listed, never counted). After every step a reference namespace model is compared with: the file list of every folder (exactly the model's entries, partials under their final name, folder item counts, sizes), get-info and the download reply of every complete file (size and type agree with the list and with the bytes on disk; comment), and the directory contents (side files .info_/.rsrc_/.incomplete travel or vanish with their file, no orphans). distinct = multiset of operation kinds; non-trivial = history has a rename/move/delete of a file that owns a side file or a partial",
+		RuleText: "each case is a history of 20-40 file-management requests through the real connection loop on a generated tree (names over ASCII and Mac-Roman high bytes incl. names that merely contain '.incomplete', spaces, 1..60 bytes; not starting with '.' or '@'): rename, move, delete, new folder (also onto an existing name), alias, set-comment on files and folders (an eighth of the comments 4-9 KB long), upload started and cut (partial file), move/rename attempts on a partial by its listed name, and moves of a file into a folder where a folder of the same name is in the way (nothing may change); destination names never collide. In a quarter of the cases operator-configured ignore patterns are in force and matching files lie in every folder (never listed, never counted). After every step a reference namespace model is compared with: the file list of every folder (exactly the model's entries, partials under their final name, folder item counts, sizes), get-info and the download reply of every complete file (size and type agree with the list and with the bytes on disk; comment), and the directory contents (side files .info_/.rsrc_/.incomplete travel or vanish with their file, no orphans). distinct = multiset of operation kinds; non-trivial = history has a rename/move/delete of a file that owns a side file or a partial",
 		Case:     runCase,
 	})
 }
@@ -179,7 +179,7 @@ func (w *world) fields(e *ent) []rc.Field {
 
 func (w *world) doStep() bool {
 	r := w.c.R
-	kind := core.Pick(r, []string{"rename", "rename", "move", "move", "delete", "delete", "new-folder", "new-folder-existing", "alias", "comment", "comment", "partial-upload", "move-partial", "rename-partial"})
+	kind := core.Pick(r, []string{"rename", "rename", "move", "move", "delete", "delete", "new-folder", "new-folder-existing", "alias", "comment", "comment", "partial-upload", "move-partial", "rename-partial", "move-blocked"})
 	w.kinds[kind]++
 	// an alias is an absolute link: renaming, moving or deleting its target, or any folder above the target, leaves
 	// it dangling (the statement does not say what a dangling alias looks like), so such entries are left alone
@@ -312,6 +312,43 @@ func (w *world) doStep() bool {
 			return false
 		}
 		p.kids = append(p.kids, &ent{name: nn, dir: true, parent: p})
+	case "move-blocked":
+		// a file (preferably one that owns a comment) is moved into a folder where a FOLDER of the same name is in the
+		// way: the file system refuses that, so nothing may change - in particular the file keeps its side files
+		files := w.all(func(e *ent) bool { return !e.dir && !e.partial && e.alias == nil && !isAliased(e) })
+		if len(files) == 0 {
+			return true
+		}
+		e := core.Pick(r, files)
+		for _, f := range files {
+			if len(f.comment) > 0 && r.Bool() {
+				e = f
+			}
+		}
+		var dests []*ent
+		for _, f := range w.folders() {
+			if f != e.parent && f.child(e.name) == nil && !isAliased(f) {
+				dests = append(dests, f)
+			}
+		}
+		if len(dests) == 0 {
+			return true
+		}
+		d := core.Pick(r, dests)
+		fs := []rc.Field{rc.F(201, e.name)}
+		if pp := d.path(); len(pp) > 0 {
+			fs = append(fs, rc.F(202, rc.Path(pp...)))
+		}
+		if rep, ok := w.cl.Call(205, fs...); !ok || rep.Err != 0 {
+			w.c.Fail("C11/new-folder/refused", "step %d: new folder %q in %q refused: %v\nhistory:\n%s", w.step, e.name, d.path(), rep, w.hist())
+			return false
+		}
+		d.kids = append(d.kids, &ent{name: e.name, dir: true, parent: d})
+		rep, _ := w.cl.Call(208, append(w.fields(e), rc.F(212, rc.Path(d.path()...)))...)
+		w.log = append(w.log, fmt.Sprintf("move %q (comment=%d) from %q into %q where a folder of that name is in the way -> %v", e.name, len(e.comment), e.parent.path(), d.path(), rep))
+		if len(e.comment) > 0 {
+			w.rich = true
+		}
 	case "new-folder-existing":
 		cands := w.all(func(e *ent) bool { return !e.partial })
 		if len(cands) == 0 {
